@@ -34,6 +34,18 @@ const (
 		abi.EFIResourceAttributeTested
 )
 
+const (
+	// maxTDVFPhysicalAddressBits is the widest guest physical address a TD can have (GPAW is 48 or
+	// 52 bits); no TDVF metadata section can describe memory at or beyond 1 << 52.
+	maxTDVFPhysicalAddressBits = 52
+	// maxTDVFInitialMemory bounds the memory that all TDVF metadata sections declare together. The
+	// sections describe the firmware image and the scratch memory (TD HOB, temporary memory) that
+	// the VMM adds with TDH.MEM.PAGE.ADD before the TD starts executing at the 32-bit reset vector,
+	// so together they span less than the 32-bit address space. The measurement and the TD HOB are
+	// built by materializing these sections, hence the sizes must be bounded before they are used.
+	maxTDVFInitialMemory = 4 * gib
+)
+
 func extractTDXMetadata(firmware []byte) (*abi.TDXMetadata, error) {
 	guidBlockMap, err := GetFwGUIDToBlockMap(firmware)
 	if err != nil {
@@ -89,6 +101,7 @@ func validateTDXMetadataSections(firmwareLen uint32, rawMetadata *abi.TDXMetadat
 	}
 	var foundTDHOB, foundBFV bool
 	var fvSize uint32
+	var totalMemorySize uint64
 	cfvCheck := func(section *abi.TDXMetadataSection) error {
 		if (section.DataOffset > firmwareLen) || (section.DataSize == 0) ||
 			((firmwareLen - section.DataOffset) < section.DataSize) {
@@ -103,6 +116,14 @@ func validateTDXMetadataSections(firmwareLen uint32, rawMetadata *abi.TDXMetadat
 		return nil
 	}
 	for _, section := range rawMetadata.Sections {
+		// Every section's memory range is used for allocation and as a loop bound, whatever its type.
+		if (section.MemorySize > maxTDVFInitialMemory) ||
+			(totalMemorySize > maxTDVFInitialMemory-section.MemorySize) ||
+			(uint64(section.MemoryBase) > (1<<maxTDVFPhysicalAddressBits)-section.MemorySize) {
+			return fmt.Errorf("invalid memory range, base: 0x%x, size: 0x%x, total size so far: 0x%x, max total size: 0x%x",
+				section.MemoryBase, section.MemorySize, totalMemorySize, uint64(maxTDVFInitialMemory))
+		}
+		totalMemorySize += section.MemorySize
 		switch section.SectionType {
 		case abi.TDXMetadataSectionTypeBFV:
 			foundBFV = true
